@@ -134,7 +134,7 @@ def grid_cases(seed: int, rounds: int = 1):
                 j = r.randrange(len(chunks))
                 off = c11_mut.offender_from(r, cls, lang, chunks[j].encode("utf-8"))
                 off["kind"] = f"{who}#{j}:{off['kind']}"
-                out.append(_mk_case(f"grid{rd}:{who}:{lang}:{cls}", off, r.choice(["default", "dry"]), r.choice(["files", "files", "dir"]), r.randrange(20)))
+                out.append(_mk_case(f"grid{rd}:{who}:{lang}:{cls}", off, r.choice(["default", "dry", "dry"]), r.choice(["files", "files", "dir"]), r.randrange(20)))
             if rd == 0:
                 for j, ch in enumerate(chunks):
                     r = rng_for(seed, PROP, "grid-path", who, lang, j)
@@ -159,6 +159,28 @@ def literal_and_comment_sweeps(seed: int, thin: bool):
             off = {"cls": "comment-payload", "kind": "sweep:" + form.split("{")[0].strip()[:30], "lang": lang, "name": "case" + c11_pool.EXT[lang],
                    "data": c11_mut.comment_sweep(lang, form, r)}
             out.append(_mk_case(f"cmtsweep:{lang}:{k}", off, "dry" if k % 3 == 0 else "default", "files", k))
+    return out
+
+
+def state_leak_and_shebang_sweeps(thin: bool):
+    """deterministic: (a) files ending inside a multi-line construct, placed at the head of the run, directly before and between the
+    healthy twins of their language that have cross-file findings (duplicate-code and stringly-typed on) - sibling findings must not
+    change; (b) extension-less files with degenerate shebang lines"""
+    names = [n for n, _ in c11_pool.siblings()]
+    out = []
+    for lang in (["py", "ts", "rs"] if thin else ["py", "ts", "js", "rs"]):
+        twin_lang = "ts" if lang in ("js", "rs") else lang
+        first_twin = names.index("top_a" + c11_pool.EXT[twin_lang])
+        donor = c11_pool.donor(lang, 3).encode()
+        for cname, data in c11_mut.open_constructs(lang):
+            variants = [("alone", data, [0, first_twin, first_twin + 1]), ("appended", donor + b"\n" + data, [first_twin]),
+                        ("prepended-to-donor", data + donor, [first_twin + 1])]
+            for vname, d, positions in variants:
+                for pos in positions:
+                    off = {"cls": "truncate", "kind": f"open-construct:{cname}:{vname}", "lang": lang, "name": "case" + c11_pool.EXT[lang], "data": d}
+                    out.append(_mk_case(f"open:{lang}:{cname}:{vname}:{pos}", off, "dry", "files", pos))
+    for i, off in enumerate(c11_mut.shebang_sweep()):
+        out.append(_mk_case(f"shebang:{i}", off, "dry" if i % 2 else "default", "files", i))
     return out
 
 
@@ -398,6 +420,11 @@ def logic_part(chk: Check, seed: int, n_stub: int, n_detect: int, stream_cases, 
             only["content"] = base64.b64decode(only["content"])
     stub_obs = c11_logic.run_stub_cases(stub_cases, sd / "stubproj")
     det_obs = c11_logic.run_detect_cases(det_cases, sd / "detproj")
+    for c, o in zip(det_cases, det_obs):
+        if o.startswith("<raised"):      # judged here, without the model: holds even when Model/Contain.v does not build
+            chk.violation({"reason": f"detect_language raised {o[8:-1]} on a file name / first line (outside every except clause of lint_file: the run aborts)",
+                           "case": {"part": "detect", "case": {"kind": "detect", "name": c["name"], "present": c["present"],
+                                                               "content": base64.b64encode(c["content"]).decode()}}})
     staged, notes = c11_logic.run_staged_cases(sd / "stagedproj") if only is None else ([], [])
     chk.notes.extend(notes)
     lines, tags = [], []
@@ -548,7 +575,8 @@ def run(tier: str, seed: int, replay: str | None = None) -> int:
             return _replay(chk, replay, seed, sd)
         grid, gnotes = grid_cases(seed, 1 if quick else 6)
         chk.notes.extend(gnotes)
-        stream_cases = corpus_cases() + sweep_cases() + literal_and_comment_sweeps(seed, quick) + grid + gen_stream_cases(seed, n_stream)
+        stream_cases = (corpus_cases() + sweep_cases() + literal_and_comment_sweeps(seed, quick) + state_leak_and_shebang_sweeps(quick) + grid
+                        + gen_stream_cases(seed, n_stream))
         results, baselines = {}, {}
 
         def go():
@@ -616,7 +644,7 @@ def _replay(chk: Check, replay: str, seed: int, sd: Path) -> int:
     if part in ("stream", "cli") and str(case.get("data_b64", "")).startswith("(too large"):
         chk.notes.append("replay of a large case: regenerated from seed and id")
         sd0 = doc.get("seed", seed)
-        cands = [c for c in corpus_cases() + sweep_cases() + literal_and_comment_sweeps(sd0, False) + grid_cases(sd0, 6)[0] + gen_stream_cases(sd0, 8000)
+        cands = [c for c in corpus_cases() + sweep_cases() + literal_and_comment_sweeps(sd0, False) + state_leak_and_shebang_sweeps(False) + grid_cases(sd0, 6)[0] + gen_stream_cases(sd0, 8000)
                  if c["id"] == case.get("id")]
         sc = cands[:1]
     elif part in ("stream", "cli"):
